@@ -163,6 +163,26 @@ class SetRef(Ext):
             def add(eng, x):
                 self.heap.H = z3.Store(self.heap.H, self.ref, z3.Store(self.content(), nm(x), True))
             return stub(add)
+        if name == "remove":
+            def remove(eng, x):
+                if not eng.branch(self.content()[nm(x)]):
+                    raise PyRaise(eng.make_exc("KeyError", "x"))
+                self.heap.H = z3.Store(self.heap.H, self.ref, z3.Store(self.content(), nm(x), False))
+            return stub(remove)
+        ops = {"union": "BitOr", "intersection": "BitAnd", "difference": "Sub", "symmetric_difference": "BitXor"}
+        if name in ops:
+            def pure(eng, *others):
+                c = self.content()
+                for o in others:
+                    c = setop(eng, c, set_content(eng, o), ops[name])
+                return self.heap.alloc(eng, c)
+            return stub(pure)
+        ups = {"update": "BitOr", "intersection_update": "BitAnd", "difference_update": "Sub", "symmetric_difference_update": "BitXor"}
+        if name in ups:
+            def upd(eng, *others):
+                for o in others:
+                    self.heap.H = z3.Store(self.heap.H, self.ref, setop(eng, self.content(), set_content(eng, o), ups[name]))
+            return stub(upd)
         raise Unsupported("set method %s" % name)
 
     def loop_snapshot(self, eng):
